@@ -390,6 +390,15 @@ func (fv *FV) checkPost(st *State, x *ssa.Return, res []SymVal) {
 	var errs []string
 	env := fv.stateEnv(st, &errs)
 	fv.bindResults(env, st, fv.fn.Signature, res, nil)
+	for _, f := range fv.fn.FreeVars {
+		if cv, ok := st.cells[CellID{Frame: 0, A: f}]; ok && cv.K == VTerm {
+			t := cv.T
+			if t.T == nil {
+				t.T = f.Type().(*types.Pointer).Elem()
+			}
+			env.vars[f.Name()] = t
+		}
+	}
 	{
 		rs := fv.fn.Signature.Results()
 		if n := rs.Len(); n > 0 && isErrorType(rs.At(n-1).Type()) && n-1 < len(res) {
